@@ -1130,10 +1130,18 @@ func (cfg *Config) getChallengeInfo(ctx context.Context, identifier string) (Cha
 	var chalInfo acme.Challenge
 	var chalInfoBytes []byte
 	var tokenKey string
+	var issuerPrefixes []string
 	for _, issuer := range cfg.Issuers {
+		issuerPrefixes = append(issuerPrefixes, storageKeyACMECAPrefix(issuer.IssuerKey()))
+		// orders placed with the test CA (i.e. retries) keep their tokens under its prefix
+		if am, ok := issuer.(*ACMEIssuer); ok && am.TestCA != "" {
+			issuerPrefixes = append(issuerPrefixes, am.storageKeyCAPrefix(am.TestCA))
+		}
+	}
+	for _, issuerPrefix := range issuerPrefixes {
 		ds := distributedSolver{
 			storage:                cfg.Storage,
-			storageKeyIssuerPrefix: storageKeyACMECAPrefix(issuer.IssuerKey()),
+			storageKeyIssuerPrefix: issuerPrefix,
 		}
 		tokenKey = ds.challengeTokensKey(identifier)
 		var err error
